@@ -188,7 +188,7 @@ var c01Indents = []int{0, 1, 2, 4, 8, 17}
 func init() {
 	core.Register(&core.Prop{
 		ID: "C01", Level: "exploration",
-		Rule: "case k draws a document of the SPDX-representable class: shape k mod 14 of the catalogue (singleton, chain, star, diamond, DAG, cycle, self-loop, several edges per source/type, several roots, no root, complete, all roots, random), " +
+		Rule: "case k draws a document of the SPDX-representable class: shape k mod 15 of the catalogue (singleton, chain, star, diamond, DAG, cycle, self-loop, several edges per source/type, several roots, no root, complete, all roots, random), " +
 			"edge type 1+k mod 44 and checksum algorithm k mod 16 forced to occur, package and file nodes, every SPDX-carried attribute independently present, two-purpose packages, dates with nanoseconds, unicode text without JSON escapes; " +
 			"written with indentation c01Indents[k mod 6] through writer.WriteStreamWithOptions, read back with reader.ParseStream, projections compared (node set, typed edge triples, roots, per-node attributes under the NOASSERTION/NONE conventions); a second write/read pass must change nothing. " +
 			"Cases 0-5 re-serialize the repository's real SPDX 2.3 files twice. distinct = hash of the written bytes; non-trivial = >=2 nodes, >=1 edge and >=3 populated attributes on some node.",
